@@ -145,22 +145,27 @@ Proof.
   rewrite andb_true_iff, !negb_true_iff, !sp_mem_seq_false, may_products_spec. tauto.
 Qed.
 
+Lemma must_hap_spec : forall x h, must_hap x h = true <-> forallb (must_var x) h = true /\ no_run3 h = true.
+Proof. intros x h. unfold must_hap. apply andb_true_iff. Qed.
+
 Lemma must_sound_complete_lemma : forall x p, In p (must_set x) <-> MustReport x p.
 Proof.
   intros x p. unfold must_set, MustReport, must_haps.
   rewrite filter_In, novel_spec, in_flat_map. split.
   - intros [(h & Hh & Hp) Hn]. split; auto.
-    apply filter_In in Hh as [Hh Hm]. apply haplotypes_spec in Hh as (m & Hl & -> & Hne & Hc).
+    apply filter_In in Hh as [Hh Hm]. apply must_hap_spec in Hm as [Hm Hr].
+    apply haplotypes_spec in Hh as (m & Hl & -> & Hne & Hc).
     exists m. cbn zeta. repeat split; auto. apply must_products_spec; auto.
-  - intros [(m & Hl & Hne & Hc & Hm & Hp) Hn]. split; auto.
+  - intros [(m & Hl & Hne & Hc & Hm & Hr & Hp) Hn]. split; auto.
     exists (select m (in_vars x)). split.
-    + apply filter_In. split; auto. apply haplotypes_spec. exists m. auto.
+    + apply filter_In. split; [|apply must_hap_spec; auto]. apply haplotypes_spec. exists m. auto.
     + apply must_products_spec; auto.
 Qed.
 
 (* ------------------------------------------------------------------ MUST inside MAY *)
 Lemma compat_weaken : forall a b, compat true a b = true -> compat false a b = true.
 Proof. intros a b. unfold compat. lia. Qed.
+
 
 Lemma pairwise_weaken : forall h, pairwise true h = true -> pairwise false h = true.
 Proof.
@@ -246,7 +251,7 @@ Qed.
 
 Lemma must_sub_may_lemma : forall x p, In p (must_set x) -> realizable x p = true.
 Proof.
-  intros x p H. apply must_sound_complete_lemma in H as [(m & Hl & Hne & Hc & Hm & st & Hst & Hp) _].
+  intros x p H. apply must_sound_complete_lemma in H as [(m & Hl & Hne & Hc & Hm & _ & st & Hst & Hp) _].
   apply realizable_iff_lemma. exists m. cbn zeta. repeat split; auto.
   - apply pairwise_weaken; auto.
   - exists st, (map (shift (select m (in_vars x))) (in_sec x)). repeat split.
